@@ -52,7 +52,8 @@ impl Stats {
             self.counters.entry(k.to_string()).or_insert(0);
             return;
         }
-        *self.counters.entry(k.to_string()).or_insert(0) += n;
+        let e = self.counters.entry(k.to_string()).or_insert(0);
+        *e = e.saturating_add(n);
     }
     pub fn inc(&mut self, k: &str) {
         self.add(k, 1);
@@ -77,7 +78,8 @@ impl Stats {
     }
     pub fn merge(&mut self, o: &Stats) {
         for (k, v) in &o.counters {
-            *self.counters.entry(k.clone()).or_insert(0) += v;
+            let e = self.counters.entry(k.clone()).or_insert(0);
+            *e = e.saturating_add(*v);
         }
         for (k, v) in &o.maxes {
             self.max(k, *v);
@@ -705,7 +707,7 @@ pub fn supervise(engine: &dyn Engine, tier: Tier, vseed: u64) -> RunOutcome {
     cov.insert("maxima".into(), json!(stats.maxes));
     cov.insert(
         "simulated_time_s".into(),
-        json!(stats.get("sim_time_ns") as f64 / 1e9),
+        json!(stats.get("sim_time_us") as f64 / 1e6),
     );
     cov.insert("aborted_cases".into(), json!(aborted_nonviolation));
     cov.insert("harness_errors".into(), json!(harness_errors.len()));
